@@ -27,6 +27,11 @@ pub fn judge_value(ctx: &Ctx, case: &Value) -> Result<(), Fail> {
     let bad = |e: serde_json::Error| Fail::new("harness:replay", e.to_string());
     if let Some(c) = case.get("cli_case") {
         let c: props::frontends::CliCase = serde_json::from_value(c.clone()).map_err(bad)?;
+        if ctx.prop == "C10" {
+            let cli = props::frontends::build_cli(ctx).map_err(|e| Fail::new("harness:build", e))?;
+            let mut st = crate::runner::Stats::default();
+            return props::frontends::check_cli_flags(ctx, &cli, &c, 999_997, &mut st);
+        }
         if ctx.prop == "C07" {
             let cli = props::frontends::build_cli(ctx).map_err(|e| Fail::new("harness:build", e))?;
             let mut st = crate::runner::Stats::default();
